@@ -12,8 +12,8 @@ mkdir -p "$OUT"
 WT=/tmp/confirm_wt
 for ID in "$@"; do
   P=${ID%/*}; N=${ID#*/}
-  PATCH=/tmp/seed/out_$P/change$N.diff
-  DEMO=/tmp/seed/out_$P/change${N}_demo_test.go
+  PATCH=${SEEDROOT:-/tmp/seed}/out_$P/change$N.diff
+  DEMO=${SEEDROOT:-/tmp/seed}/out_$P/change${N}_demo_test.go
   R=$OUT/$P-$N.result
   : >"$R"
   [ -f "$PATCH" ] && [ -f "$DEMO" ] || { echo "missing=1" >>"$R"; continue; }
